@@ -18,12 +18,20 @@ import mutscreen as M
 import gen_src as G
 
 DEPENDENTS = {"encode_varint": ["encode_varint", "prepend_compact_size", "add_magic_prefix"], "op_push_data": ["op_push_data", "push_integer"],
-              "schnorr_tagged_hash": ["tagged_hash"], "get_target_bits": ["block_header"], "txout_to_bytes": ["tx_parts"], "txin_to_bytes": ["tx_parts"], "serialize_header": ["block_header"], "get_block_hash": ["block_header"], "tagged_hash": ["tagged_hash", "tapbranch_tagged_hash", "tapleaf_tagged_hash"]}
+              "schnorr_tagged_hash": ["tagged_hash"], "get_target_bits": ["block_header"], "txout_to_bytes": ["tx_parts", "tx_whole"], "txin_to_bytes": ["tx_parts", "tx_whole"], "witness_to_bytes": ["tx_whole"], "tx_to_bytes": ["tx_whole"], "serialize_header": ["block_header"], "get_block_hash": ["block_header"], "tagged_hash": ["tagged_hash", "tapbranch_tagged_hash", "tapleaf_tagged_hash"]}
 ONLY = [a for a in sys.argv[1:] if not a.startswith("--") and not a.endswith(".json")]
 
 
 def probes(qual, file=""):
     r = random.Random(5)
+    if qual == "TxWitnessInput.to_bytes":
+        return [([],), ([""],), (["aa"],), (["aa" * 72, "bb" * 33],), (["cc" * 252, "", "dd" * 253],), (["ee"] * 300,), (["ff" * 70000],)]
+    if qual == "Transaction.to_bytes":
+        out = []
+        for nin, nout, wits in ((1, 1, [["aa" * 72, "bb" * 33]]), (2, 1, [[], ["cc"]]), (1, 0, [[""]]), (3, 2, [["aa"], [], ["bb", "cc"]]), (253, 1, []), (1, 253, [[]])):
+            for hs in (True, False):
+                out.append((nin, nout, wits, hs))
+        return out
     if qual == "TxOutput.to_bytes":
         scripts = [[], ["OP_1"], ["OP_DUP", "OP_HASH160", "aa" * 20, "OP_EQUALVERIFY", "OP_CHECKSIG"], ["bb" * 252], ["bb" * 253], ["cc" * 70000], [5, 17, 300]]
         return [(a, sc) for a in (0, 1, 546, 2 ** 32, 2 ** 63 - 1, 2 ** 63, -1, -2 ** 63, -2 ** 63 - 1) for sc in scripts[:3]] + [(7, sc) for sc in scripts]
@@ -89,6 +97,14 @@ for args in T.probes(qual, file):
     try:
         if qual == "tagged_hash" and file.endswith("schnorr.py"):
             r = schnorr.tagged_hash(*args)
+        elif qual == "TxWitnessInput.to_bytes":
+            r = transactions.TxWitnessInput(args[0]).to_bytes()
+        elif qual == "Transaction.to_bytes":
+            nin, nout, wits, hs = args
+            ins = [transactions.TxInput("%064x" % (i + 1), i, script.Script(["aa" * (i % 3)] if i % 3 else [])) for i in range(nin)]
+            outs = [transactions.TxOutput(1000 + i, script.Script(["OP_1", "bb" * 20])) for i in range(nout)]
+            tx = transactions.Transaction(ins, outs, has_segwit=True, witnesses=[transactions.TxWitnessInput(w) for w in wits])
+            r = tx.to_bytes(hs)
         elif qual == "TxOutput.to_bytes":
             r = transactions.TxOutput(args[0], script.Script(args[1])).to_bytes()
         elif qual == "TxInput.to_bytes":
